@@ -111,7 +111,7 @@ def build_specs(rng, quick, ops, keep_snapshots=False, band=None):
             rng.shuffle(calls)
             calls = calls[: (60 if quick else 400)]
             for j in range(0, len(calls), 30):
-                add(n, c, nbits, 1 + (j // 30) % 3, "mid" if op == "zerodm" else ("identity" if j % 60 else "random"),
+                add(n, c, nbits, 1 + (j // 30) % 3, "mid" if op == "zerodm" else ("identity", "random", "runs")[(j // 30) % 3],
                     calls[j:j + 30])
     if "downsample" in ops:
         # large decimation tiles (every tile size up to 200; 520 thorough): the mean of tf*ff values reduced to the output depth
@@ -141,7 +141,10 @@ def build_specs(rng, quick, ops, keep_snapshots=False, band=None):
             vs = op_variants(op, n, c, nbits, rng, True)
             if vs:
                 calls.append(dict(op=op, gulp=gulp, start=start, nsamps=nsamps, **rng.choice(vs)))
-        add(n, c, nbits, rng.choice([1, 2, 3]), rng.choice(["mid", "random"]), calls)
+        mode = rng.choice(["mid", "random", "runs"])
+        if nbits == 32 and mode != "mid":     # zero-DM on wide-range floats is exercised with the 'mid' class (C07 bounds it to representable output)
+            calls = [x for x in calls if x["op"] != "zerodm"]
+        add(n, c, nbits, rng.choice([1, 2, 3]), mode, calls)
     return specs
 
 
